@@ -236,6 +236,16 @@ theorem amdp_sparse_reward_in_hull (evs : List Ev) (hp : ∀ e ∈ evs, 0 ≤ e.
       rw [key, decide_eq_true_eq] at this
       split_ifs at this <;> linarith
 
+/-! ## zero entropy buckets -/
+
+/-- FULL STATEMENT (the property quantifies over ALL bucket counts):
+      `∀ S buckets maxS k, maxS < S → discretize S buckets maxS k < S * buckets`
+    — every belief is sent inside the augmented state space.  The proof (`discretize_lt`) forced `0 < buckets`, and the
+    hypothesis is necessary: with no bucket the space is empty and EVERY index is outside it.  The library accepts
+    `AMDP(n, 0)` / `setEntropyBuckets(0)` and `discretize*` then writes outside its 0×0 tables (open finding
+    C06-amdp-zero-entropy-buckets, fixes/C06-7). -/
+theorem discretize_zero_buckets_counterexample (S maxS k : Nat) : ¬ discretize S 0 maxS k < S * 0 := by simp
+
 /-! ## the checker -/
 
 theorem minQ_le (l : List Rat) : ∀ x, minQ x l ≤ x ∧ ∀ y ∈ l, minQ x l ≤ y := by
